@@ -70,6 +70,11 @@ def run(chk):
     from props._certs import cert_props, run_certs
     cert_props(chk)
     run_certs(chk, ["input_safe"], priority=GROWTH)
+
+    # growth paths: the regenerated emitters' capacity tests / doubling reallocations refine model/Append.v's
+    # grow steps on the IR machine (coq/props/TIE_append.v)
+    from props._tie import run_tie
+    run_tie(chk, ["append"])
     if not quick:
         asan_sweep(chk)
 
